@@ -82,7 +82,7 @@ def _messages(v, consumer):
 
 def oracle(case, recs, cl):
     m = case["meta"]
-    cls = "C18-nested-dangling:" if m["nested"] else "C18:"
+    cls = "C18-nested-dangling:" if m["nested"] else "C18:"   # (class of a finding that is now fixed: any failure is a violation)
     fails = []
     if recs[-1]["impl"].name in ("panic", "hang", "abort"):
         return ["%s crashed: %s" % (cls, dumps(recs[-1]["impl"])[:100])]
